@@ -395,6 +395,11 @@ def check_ops(ctx, m, src, cfg, rng, tautomer_fix_ok):
                 ctx.violation('explicify-leaves-implicit-hydrogens', '%s: %d left' % (src, ex), {'smiles': src, 'op': 'explicify_hydrogens'})
 
 
+TAUT_PATH_ENDS = ['CC(=O)C=O', 'O=CC(=O)c1ccccc1', 'O=CC(=O)O', 'CC(=NO)C=O', 'O=CC(C)=NC', 'O=CC(C)=C=C', 'O=CC=O', 'CC(=O)C(C)=O', 'O=CC(=O)C=O',
+                  'O=CC(=O)CC', 'CC(=O)C(=O)C=O', 'O=CC(=N)C', 'O=CC(C)=C=O', 'CC(C=O)=C=CC', 'O=CC(=O)N', 'O=CC(=O)OC', 'O=CC(=S)C', 'N=CC(=O)C',
+                  'O=CC(=O)C(=O)O', 'CC(=O)C(=O)c1ccccc1', 'O=CC(C)=CC=O', 'O=C(C)C(C)=C=C', 'OC=C(C)C=O', 'O=CC(=O)C1CC1', 'O=CC(C#N)=O'.replace('(C#N)=O', '(=O)C#N')]
+
+
 def check_tautomers(ctx, m, src, cfg, rng, numbering):
     if m.check_valence() or len(m) > 35:
         return
@@ -539,6 +544,16 @@ def worker(ctx):
     src += [c[i] for k, i in enumerate(ids[:cfg['n_corpus']]) if ctx.mine(k)]
     hand_made = set(EXTRA)
     ntaut = 0
+    # ends of keto-enol paths: carbonyl / imine / cumulene carbons with and without a hydrogen next to a formyl or acyl group
+    # (conservation and valence clauses only; which forms are listed is not judged here)
+    for k, s in enumerate(TAUT_PATH_ENDS):
+        if ctx.mine(k):
+            try:
+                m = smiles(s)
+            except Exception:
+                continue
+            ctx.count('tautomers.path-end-inputs')
+            check_tautomers(ctx, m, s, cfg, rng, numbering=False)
     EXTRA_SET = _extra_set()
     for s in src:
         if ctx.out_of_time():
